@@ -12,9 +12,9 @@ use std::collections::{BTreeMap, BTreeSet};
 pub const META: PropMeta = PropMeta {
     id: "C12",
     level: "exploration",
-    rule: "cases = (registry, id, seed): simulator programs incl. cyclic ones, all primitives (the 128-bit ones are rewritten to U256/I256 in every fifth registry), all 8 store x order bit sequences, compact over unsigned integers, empty enums, Duration/NonZero/PhantomData entries; every id; 4 (quick) / 32 (thorough) seeds; Polkadot ids with 2 / 8 seeds (ids reaching a compact over anything but an unsigned integer or a single-field wrapper of one are outside the class: skipped and counted). Oracle: no panic; a returned value must encode with scale_value::scale::encode_as_type against the same id, the bytes must decode with decode_as_type consuming all input to an equal value (contexts removed); the same seed must give the same value; Err is acceptable only if the subgraph reachable from the id contains a cycle or an empty enum. Bounded progress (restating 'terminates'): transformer resolve calls <= the oracle's unfolding size of the type (sequences x2, arrays x length, enums = largest variant). non-trivial = a value was returned for a composite/variant/sequence type; distinct by (registry hash, id, seed).",
+    rule: "cases = (registry, id, seed): a hand-written gallery of recursive types that can terminate (ternary tree, list, optional boxes, mutual and generic recursion) referenced several times from one root and through Vec/array/tuple, with 48 / 512 seeds; simulator programs incl. cyclic ones, all primitives (the 128-bit ones are rewritten to U256/I256 in every fifth registry), all 8 store x order bit sequences, compact over unsigned integers, empty enums, Duration/NonZero/PhantomData entries; every id; 4 (quick) / 32 (thorough) seeds; Polkadot ids with 2 / 8 seeds (ids reaching a compact over anything but an unsigned integer or a single-field wrapper of one are outside the class: skipped and counted). Oracle: no panic; a returned value must encode with scale_value::scale::encode_as_type against the same id, the bytes must decode with decode_as_type consuming all input to an equal value (contexts removed); the same seed must give the same value; Err is acceptable only if the subgraph reachable from the id contains a cycle or an empty enum. Bounded progress (restating 'terminates'): transformer resolve calls <= the oracle's unfolding size of the type (sequences x2, arrays x length, enums = largest variant). non-trivial = a value was returned for a composite/variant/sequence type; distinct by (registry hash, id, seed).",
     assumptions: &["scale-value 0.18 / scale-encode 0.10 / scale-decode 0.16 are the reference encoder and decoder the statement names"],
-    required_counters: &["values_roundtripped", "errs_on_cyclic_or_empty", "bit_sequence_values", "compact_values", "same_seed_compared", "hook[tf:policy-enter]"],
+    required_counters: &["values_roundtripped", "errs_on_cyclic_or_empty", "bit_sequence_values", "compact_values", "same_seed_compared", "hook[tf:policy-enter]", "gallery_registries"],
     floor: (3000, 100_000),
     shards: (16, 16),
 };
